@@ -623,6 +623,15 @@ class PopulationBalanceModel:
         indAbove = self._netFlux[1:]*dt > psd
         self._netFlux[1:][indAbove] = psd[indAbove] / dt
 
+        #A bin around the critical radius loses particles through both faces (dissolution on the left, growth on the right)
+        #   Scale the two fluxes so that together they do not remove more particles than the bin holds
+        outLeft = np.clip(-self._netFlux[:-1], 0, None)
+        outRight = np.clip(self._netFlux[1:], 0, None)
+        indBoth = (outLeft > 0) & (outRight > 0) & ((outLeft + outRight)*dt > psd)
+        scale = psd[indBoth] / ((outLeft[indBoth] + outRight[indBoth])*dt)
+        self._netFlux[:-1][indBoth] *= scale
+        self._netFlux[1:][indBoth] *= scale
+
         dXdt = (self._netFlux[:-1] - self._netFlux[1:])
 
         #Find size class for nucleated particles
